@@ -89,6 +89,8 @@ type Sim struct {
 	LockPreempts uint64
 	FairYields   uint64
 	Budget       uint64
+	BigCalls     uint64 // math/big calls charged to the logical clock
+	BigCost      uint64 // steps charged for them
 	noYield      int
 	Deadlock     bool
 	aborted      bool
@@ -223,6 +225,23 @@ func (s *Sim) EndOp() uint64 {
 //
 //go:norace
 func (s *Sim) Cur() *Task { return s.cur }
+
+// CostHook is installed as the library's VerifCostHook: the estimated work of
+// a math/big call that is about to run is charged to the logical clock of the
+// running operation (time spent inside math/big is otherwise invisible to the
+// statement counter). An operation whose next big call alone would take it
+// over the step budget is ended before the call.
+//
+//go:norace
+func (s *Sim) CostHook(site uint32, cost uint64) {
+	t := s.cur
+	s.BigCalls++
+	s.BigCost += cost
+	t.opStep += cost
+	if t.opStep > s.Budget {
+		panic(BudgetExceeded{t.opStep})
+	}
+}
 
 // Hook is installed as the library's VerifHook.
 //
